@@ -490,3 +490,53 @@ pub fn check_c19(ctx: &mut Ctx, enc: &Encoded) -> R {
     }
     Ok(())
 }
+
+
+/// C09, the "more frames than a seek table can hold" case: 932 100 frames of 16 silent samples,
+/// undeclared length, a seek point requested for every frame, table to be carved from padding
+pub fn run_c09_big(ctx: &mut Ctx) -> R {
+    use flac_codec::encode::{FlacSampleWriter, Options};
+    let frames: usize = 932_100;
+    ctx.describe(|| format!("{frames} frames of 16 samples, mono 8-bit, undeclared length, seektable_frames(1), padding 4096"));
+    let opts = Options::default().block_size(16).unwrap().seektable_frames(1).max_lpc_order(None).unwrap();
+    let mut cur = std::io::Cursor::new(Vec::with_capacity(12 << 20));
+    let mut w = match FlacSampleWriter::new(&mut cur, opts, 8000, 8, 1, None) {
+        Ok(w) => w,
+        Err(e) => return viol("header-untruthful:seektable", format!("constructor failed: {e:?}")),
+    };
+    let chunk = vec![0i32; 16 * 4096];
+    let mut left = frames * 16;
+    while left > 0 {
+        let n = left.min(chunk.len());
+        if let Err(e) = w.write(&chunk[..n]) {
+            return viol("header-untruthful:seektable", format!("write failed: {e:?}"));
+        }
+        left -= n;
+    }
+    probe("c09_more_frames_than_max_points");
+    if let Err(e) = w.finalize() {
+        return viol("header-untruthful:seektable", format!("finalize failed with {frames} frames: {e:?}"));
+    }
+    let bytes = cur.into_inner();
+    ctx.eval(frames as u64, true);
+    let m = match refflac::parse_meta(&bytes, 0) {
+        Ok(m) => m,
+        Err(e) => return viol("header-untruthful:seektable", format!("metadata unparseable: {e:?}")),
+    };
+    if m.si.total != (frames * 16) as u64 {
+        return viol("header-untruthful:total", format!("total {} != {}", m.si.total, frames * 16));
+    }
+    if let Some(pts) = &m.seektable {
+        // whatever was written must be truthful: check the first, a middle and the last point
+        for &(s, o, n) in [pts.first(), pts.get(pts.len() / 2), pts.last()].into_iter().flatten() {
+            if s == u64::MAX {
+                continue;
+            }
+            match refflac::parse_frame(&bytes, m.audio_start + o as usize, Some(&m.si)) {
+                Ok(f) if f.number == s / 16 && f.block_size == n as u32 => {}
+                other => return viol("seekpoint-untruthful", format!("point ({s},{o},{n}) does not name a frame: {:?}", other.map(|f| (f.number, f.block_size)))),
+            }
+        }
+    }
+    Ok(())
+}
